@@ -45,7 +45,7 @@ type propCfg struct {
 }
 
 var cfgs = map[string]propCfg{
-	"C05": {engine: "A", race: false, quickRuns: 6000, batch: 200, thoroughSec: 600,
+	"C05": {engine: "A", race: false, auto: true, quickRuns: 6000, batch: 200, thoroughSec: 600,
 		rule: "one run = one seeded history of 2..12 public-API operations (Eval/EvalBytes/String/Compile of other expressions, aborted and extension-faulted evaluations) on a pool of 2..6 shared Exprs; evaluations = operations executed; distinct_nontrivial = distinct (program text, document, bindings) triples that were evaluated at >= 2 different history positions (only those can expose history dependence)"},
 	"C06": {engine: "A", race: true, auto: true, quickRuns: 4000, batch: 100, thoroughSec: 900,
 		rule: "one run = one seeded schedule of 2..8 (thorough: 2..32) tasks over shared-Expr / per-task-Expr / register||compile workloads under the race detector; evaluations = simulated runs; distinct_nontrivial = distinct schedule signatures (hash of the (task, site, next-task) sequence at switches) among runs with >= 1 preemption inside another task's call window (a hook site other than node entry / operation end)"},
@@ -122,7 +122,7 @@ func workerCmd(cfg propCfg, args ...string) *exec.Cmd {
 	} else if cfg.race {
 		cmd = exec.Command(filepath.Join(*binDir, "worker-race"+suffix), args...)
 	} else {
-		cmd = exec.Command(filepath.Join(*binDir, "worker"), args...)
+		cmd = exec.Command(filepath.Join(*binDir, "worker"+suffix), args...)
 	}
 	return cmd
 }
